@@ -185,6 +185,23 @@ func pickP(r *common.Rand, s *fedlab.Schema, reached []string, open bool) map[st
 		}
 	}
 	if open {
+		// rules on a concrete coordinate only, where the same field is also selectable through an
+		// interface the type implements (the conditioned occurrence of `f ... on T { f }`)
+		var impl []string
+		for _, tf := range reached {
+			t, f := c14lab.SplitTF(tf)
+			if td := s.Type(t); td != nil && td.Kind == fedlab.KObject {
+				for _, i := range td.Implements {
+					if it := s.Type(i); it != nil && it.Field(f) != nil {
+						impl = append(impl, tf)
+						break
+					}
+				}
+			}
+		}
+		for i := 0; len(impl) > 0 && i < 2; i++ {
+			P[common.PickOf(r, impl)] = true
+		}
 		return P
 	}
 	return c14lab.Closure(s, P)
